@@ -119,6 +119,18 @@ def random_cases(run: lib.Run, n: int):
     env0 = {"subject": {"id": "u"}, "action": "read", "resource": {"type": "doc", "id": "1"}, "context": {"n": {"real": 5}}}
     for c in odd:
         yield c, env0, f"odd:{c!r}"
+    # two operator keys in one document: the FIRST one in the order of the `if` chain decides (the model dispatches in that order), so
+    # every ordered pair (one operator true, the other false) pins the order of two branches
+    t0, t1, t2, t3 = "2024-01-01T00:00:00Z", "2024-06-01T00:00:00Z", "2025-01-01T00:00:00Z", "2026-01-01T00:00:00Z"
+    tf = {"==": ([1, 1], [1, 2]), "!=": ([1, 2], [1, 1]), ">": ([2, 1], [1, 2]), "<": ([1, 2], [2, 1]), ">=": ([2, 1], [1, 2]),
+          "<=": ([1, 2], [2, 1]), "contains": (["ab", "a"], ["ab", "c"]), "in": (["a", "ab"], ["c", "ab"]),
+          "hasAll": ([[1, 2], [1]], [[1], [2]]), "hasAny": ([[1, 2], [1]], [[1], [2]]), "startsWith": (["ab", "a"], ["ab", "b"]),
+          "endsWith": (["ab", "b"], ["ab", "a"]), "before": ([t0, t1], [t1, t0]), "after": ([t1, t0], [t0, t1]),
+          "between": ([t1, [t0, t2]], [t1, [t2, t3]])}
+    for p in tf:
+        for q in tf:
+            if p != q:
+                yield {p: tf[p][0], q: tf[q][1]}, env0, f"twokeys:{p}+{q}"
     # nesting far deeper than any hand-written document (generated policies fold lists pairwise): the meaning of and/or/not does not
     # depend on the depth at which they stand
     for depth in (31, 32, 33, 34, 65, 120):
